@@ -107,7 +107,22 @@ class E1Run:
 
             primaite.PRIMAITE_PATHS.user_sessions_path = Path(run_dir) / "sessions"
         if getattr(self, "schedule_path", None):
-            self.env = PrimaiteGymEnv(self.schedule_path)
+            path = self.schedule_path
+            if self.args.get("io_override") is not None:
+                # the directory's own base scenario decides the output settings: a variant works on a scratch copy of
+                # the directory whose base scenario ends with another io_settings block (the last one counts)
+                import shutil
+
+                import yaml
+
+                path = os.path.join(run_dir or "/tmp", "schedule_copy")
+                shutil.rmtree(path, ignore_errors=True)
+                shutil.copytree(self.schedule_path, path)
+                with open(os.path.join(path, "schedule.yaml")) as f:
+                    base = yaml.safe_load(f)["base_scenario"]
+                with open(os.path.join(path, base), "a") as f:
+                    f.write("\n" + yaml.safe_dump({"io_settings": dict(self.args["io_override"])}))
+            self.env = PrimaiteGymEnv(path)
             sched = self.env.episode_scheduler
             self.scenario = sched(0)
         else:
@@ -131,8 +146,30 @@ class E1Run:
             self.episode_at_mark = self.env.episode_counter + 1  # index of the episode the next reset builds
         elif kind in ("b_new", "b_reset", "b_step", "b_close"):
             self.do_b(op)
+        elif kind == "recable":
+            self.do_recable(op[1], op[2])
         else:
             raise GeneratorDefect(f"unknown op {op}")
+
+    def do_recable(self, hostname: str, port: int):
+        """Run-time re-cabling through the public Network API: the cable on that interface is pulled and plugged in
+        again (same ends, same bandwidth)."""
+        net = self.env.game.simulation.network
+        node = net.get_node_by_hostname(hostname)
+        nic = node.network_interface.get(port) if node is not None else None
+        link = getattr(nic, "_connected_link", None)
+        if link is None:
+            return
+        a, b, bw = link.endpoint_a, link.endpoint_b, link.bandwidth
+        try:
+            net.remove_link(link)
+            net.connect(endpoint_a=a, endpoint_b=b, bandwidth=bw)
+        except Exception as e:  # noqa: BLE001
+            info = exc_summary(e)
+            raise Violation("C01", "recable-raises", f"pulling and re-plugging the cable on {hostname} port {port} raised {info['type']}: {info['text']}", sig=f"recable-raises:{info['type']}:{info['where']}", detail={"exc": info})
+        self.fault("F8_recable")
+        for m in self.monitors:
+            m.after_req(self, [], "F8_recable", None)
 
     def do_step(self, action: int, others: Optional[Dict] = None, inject: Optional[List] = None):
         env = self.env
@@ -316,7 +353,7 @@ class E1Run:
             if op is not None:
                 return op
         if kind == "reset":
-            return ["reset", r.choice([None, None, r.randint(0, 10**6)])]
+            return ["reset", r.choice([None, None, 0, r.randint(0, 10**6)])]
         if kind == "fault":
             req = self.gen_fault()
             if req is not None:
@@ -324,7 +361,7 @@ class E1Run:
         n = env.action_space.n
         # truncation is informational in gymnasium; keep stepping a little past it now and then, otherwise reset
         if self.steps_since_reset >= env.game.options.max_episode_length + r.choice([0, 0, 1, 3]):
-            return ["reset", r.choice([None, r.randint(0, 10**6)])]
+            return ["reset", r.choice([None, 0, r.randint(0, 10**6)])]
         op = ["step", r.randrange(n)]
         extra = {name: r.randrange(len(ag.action_manager.action_map)) for name, ag in env.game.rl_agents.items() if name != env._agent_name}
         if extra:
@@ -382,7 +419,7 @@ class E1Run:
         node = r.choice(hosts)
         hn = node.config.hostname
         base = ["network", "node", hn]
-        kind = r.choice(["create_burst", "delete_burst", "access_burst", "login_burst", "exec_burst"])
+        kind = r.choice(["create_burst", "delete_burst", "access_burst", "login_burst", "exec_burst", "transfer_burst"])
         ops: List[List] = []
         named = [f for f in node.file_system.folders.values() if not _ID_RE.search(f.name)]  # concrete ops never carry opaque ids
         if not named:
@@ -411,6 +448,25 @@ class E1Run:
                 app = r.choice(apps)
                 for _ in range(r.randint(3, 12)):
                     ops.append(["req", base + ["application", app, "execute"], "push_exec"])
+        elif kind == "transfer_burst":
+            # several large FTP transfers in one tick: more traffic than the interface's nominal speed when links allow
+            senders = [n for n in hosts if "ftp-client" in n.software_manager.software]
+            servers = [n for n in hosts if "ftp-server" in n.software_manager.software]
+            if senders and servers:
+                src = r.choice(senders)
+                big = []
+                for folder in src.file_system.folders.values():
+                    if _ID_RE.search(folder.name):
+                        continue
+                    for f in folder.files.values():
+                        big.append((f.size, folder.name, f.name))
+                big.sort(reverse=True)
+                if big:
+                    _, fo, fn = big[0]
+                    dst = r.choice(servers)
+                    ip = str(dst.network_interface[1].ip_address)
+                    for k in range(r.randint(3, 16)):
+                        ops.append(["req", ["network", "node", src.config.hostname, "service", "ftp-client", "send", {"dest_ip_address": ip, "src_folder_name": fo, "src_file_name": fn, "dest_folder_name": "incoming", "dest_file_name": f"t_{self.op_index}_{k}.bin"}], "push_transfer"])
         return ops[:40]
 
     def gen_fault(self) -> Optional[List]:
@@ -425,6 +481,12 @@ class E1Run:
         kinds = ["F1_power", "F2_nic", "F4_service", "F4_app", "F3_acl", "FS_file"] + list(self.args.get("extra_faults") or [])
         k = r.choice(kinds)
         base = ["network", "node", hn]
+        if k == "F8_recable":
+            cabled = [(n.config.hostname, p) for n in nodes for p, i in n.network_interface.items() if getattr(i, "_connected_link", None) is not None and n.operating_state.name == "ON"]
+            if not cabled:
+                return None
+            hn2, port = r.choice(sorted(cabled))
+            return ["recable", hn2, port]
         if k == "F4_uninstall":
             # what a defender's node-application-remove does: the application (and every request path under it) disappears
             hosts = [n for n in nodes if getattr(n, "applications", None)]
@@ -488,8 +550,13 @@ class E1Run:
             files = sorted(f.name for f in fobj.files.values()) if fobj else []
             if files and r.random() < 0.7:
                 fn = r.choice(files)
-                if r.random() < 0.2:
+                x_ = r.random()
+                if x_ < 0.2:
                     return ["req", base + ["file_system", "delete", "file", folder, fn], k]
+                if x_ < 0.3:
+                    # the file-system level restore (a file deleted in an earlier tick comes back in this one)
+                    gone = sorted(f.name for f in fobj.deleted_files.values()) if fobj else []
+                    return ["req", base + ["file_system", "restore", "file", folder, r.choice(gone) if gone else fn], k]
                 return ["req", base + ["file_system", "folder", folder, "file", fn, r.choice(["corrupt", "scan", "repair", "restore"])], k]
             if r.random() < 0.1 and folder != "root":
                 return ["req", base + ["file_system", r.choice(["delete", "restore"]), "folder", folder], k]
